@@ -58,6 +58,13 @@ STMTS = {
     "swap_elems": (["sw := 0 .* N"], "swap sw[i], sw[N-1-i]", "len(sw)", lambda n: n),
     "insert_pair": (["ip := {}"], "ip |..= [i, i]", "len(ip)", lambda n: n),
     "discard": (["dc := set(0 til N)"], "dc -.= i", "len(dc)", lambda n: 0),
+    # the variable is mutated from inside a closure that captured it (the closure's environment is the only other referent
+    # of the variable, not of the value)
+    "closure_append": (["cg := []", "cgf := \\v -> (cg append= v)"], "cgf(i)", "len(cg)", lambda n: n),
+    "closure_set": (["cs := 0 .* N", "csf := \\j -> (cs[j] = j)"], "csf(i)", "cs[N-1]", lambda n: n - 1),
+    "closure_dict_set": (["cd := {}", "cdf := \\j -> (cd[j] = j)"], "cdf(i)", "len(cd)", lambda n: n),
+    "rows_opassign": (["ro := (1 .* 4) .* N"], "ro[i][1] += i", "ro[N-1][1]", lambda n: n),
+    "dict_of_dict_opassign": (["dod := {\"k\": {:0}}"], "dod[\"k\"][i % 7] += 1", "dod[\"k\"][0]", lambda n: (n + 6) // 7),
     # strings are collections too (Seq::String): one-character slot assignment on an unaliased string of 8n bytes
     "string_set": (["s8 := 'a' $* (8*N)"], "s8[i] = 'b'", "len(s8 filter (== 'b'))", lambda n: n),
     "string_nested_set": (["sn8 := ['a' $* (8*N)]"], "sn8[0][i] = 'b'", "len(sn8[0] filter (== 'b'))", lambda n: n),
